@@ -284,6 +284,8 @@ class UnusedTranslator:
                 continue
             if not self._uses_respect_repeated_arguments(prg, rules[0], head, hlit.atom.symbol.arguments):
                 continue
+            if collect_ast(blit, "BinaryOperation") or collect_ast(blit, "UnaryOperation"):
+                continue  # the use would apply the arithmetic to its own arguments, the rule only matches values
             body_only = [
                 var
                 for var in collect_ast(blit, "Variable")
